@@ -38,7 +38,8 @@ ASSUMPTIONS = [
     "says, the only reading under which the statement holds for the pinned "
     "tree: a non-ASCII letter or digit is never part of a name",
     "the name carried by the replacement error is compared "
-    "case-insensitively (the statement does not fix its case)",
+    "case-insensitively for $name / ${name} (the statement does not fix "
+    "its case) and exactly for $(NAME), whose case is significant",
 ]
 FLOORS = {"quick": {"judged": 100000, "judged_isname": 10000},
           "thorough": {"judged": 10000000, "judged_isname": 100000}}
@@ -72,8 +73,15 @@ def agree(exp, obs, s):
     if exp[0] == "syntax":
         return obs[0] == "syntax"
     if exp[0] == "missing":
-        return (obs[0] == "missing" and isinstance(obs[1], str)
-                and obs[1].lower() == exp[1].lower() and obs[2] == s)
+        if not (obs[0] == "missing" and isinstance(obs[1], str)
+                and obs[2] == s):
+            return False
+        if exp[2] == "env":
+            # an environment variable's name is case-sensitive: the error
+            # names the variable that is missing, as written
+            return obs[1] == exp[1]
+        # a define-style name: as written or lower-cased, both name it
+        return obs[1].lower() == exp[1].lower()
     return False
 
 
@@ -271,7 +279,9 @@ def random_string(rng):
 # case-fold into ASCII letters
 _FOREIGN = ["\u212a", "\u017f", "\u0130", "\u0131", "\u2126", "\u212b",
             "\xe9", "\xdf", "\u01c5", "\uff11", "\u0663", "\xb2", "\xaa",
-            "\xb5", "\u4e2d", "\uff41", "\u0391", "\u203f", "\uff3f"]
+            "\xb5", "\u4e2d", "\uff41", "\u0391", "\u203f", "\uff3f",
+            # ASCII neighbours of A-Z, a-z, 0-9 (a class written 'A-z')
+            "[", "\\", "]", "^", "`", "@", "|", "/", ":"]
 _BOUNDARY = ["$%s", "${%s}", "$(%s)", "$a%s", "${a%s}", "$(a%s)", "$a%s b",
              "$%sa", "${%sa}", "$(%sa)", "x$_%s", "$a1%s$a", "$$%s", "$a%s}",
              "${a}%s", "$A%s", "$a\n", "${a}\n", "$a%s\n", "%s$a"]
